@@ -494,3 +494,20 @@ pub fn request_snapshot(dht: &crate::Dht) -> flume::Receiver<Snapshot> {
     dht.send(crate::actor::ActorMessage::VerifSnapshot(tx));
     rx
 }
+
+/// Number of API messages queued to a threaded node and not yet consumed by its loop.
+pub fn dht_queue_len(dht: &crate::Dht) -> usize {
+    dht.0.len()
+}
+/// Raw `Put` message to a threaded node (what `Dht::put` sends), returning the result channel.
+pub fn dht_put_raw(
+    dht: &crate::Dht,
+    request: PutRequestSpecific,
+    extra_nodes: Option<Box<[Node]>>,
+) -> flume::Receiver<Result<Id, PutError>> {
+    dht.put_inner(request, extra_nodes)
+}
+/// Raw `Get` message to a threaded node (what the `Dht::get_*` wrappers send).
+pub fn dht_get_raw(dht: &crate::Dht, request: GetRequestSpecific, sender: ResponseSender) {
+    dht.send(crate::actor::ActorMessage::Get(request, sender));
+}
